@@ -406,6 +406,50 @@ ClassOf(r, d) == IF ~r.run THEN r.direct
 Classify(entry, s) == LET r == Route(entry, s) IN
                       ClassOf(r, IF r.run THEN Decode(r.F, s, r.off) ELSE Dec0(0))
 
+\* ------------------------------------------------------------------ large literal-only streams (C11, stream sizes 2^16 .. 2^20)
+\* A stream of n literals taken from an 8-byte pattern pat is: header, then groups of a zero flag
+\* byte and 8 literals (the last group possibly shorter).  Its body therefore has period 9 and
+\* starts with <<0>> \o pat; TLC decides that with two native sequence comparisons instead of a
+\* million decoder steps.  LitLemma (checked by MC_LZ at small n): such a stream decodes to pat
+\* repeated to n bytes; a proper prefix that keeps the header is a truncation (err).
+LitBodyLen(n) == n + CeilDiv(n, 8)
+LitBodyOK(s, off, pat) ==
+  LET L == Len(s) - off - 4
+      g == <<0>> \o pat
+  IN /\ Len(pat) = 8
+     /\ L >= 0
+     /\ L >= 1 => SubSeq(s, off + 5, off + 4 + Min(9, L)) = SubSeq(g, 1, Min(9, L))
+     /\ L > 9 => SubSeq(s, off + 5, Len(s) - 9) = SubSeq(s, off + 14, Len(s))
+LitHeaderOK(F, s, off, n) == Len(s) >= off + 4 /\ s[off + 1] = F.type /\ U24(s, off + 2) = n /\ n >= 1
+IsLitStream(F, s, off, pat, n) ==
+  LitHeaderOK(F, s, off, n) /\ LitBodyOK(s, off, pat) /\ Len(s) - off - 4 = LitBodyLen(n)
+IsLitTrunc(F, s, off, pat, n) ==
+  LitHeaderOK(F, s, off, n) /\ LitBodyOK(s, off, pat) /\ Len(s) - off - 4 < LitBodyLen(n)
+
+LitLemma(F, s, off, pat, n) ==
+  /\ IsLitStream(F, s, off, pat, n) =>
+        LET d == Decode(F, s, off) IN d.st = "done" /\ d.out = [i \in 1..n |-> PIn(pat, i)]
+  /\ IsLitTrunc(F, s, off, pat, n) =>
+        LET d == Decode(F, s, off) IN d.st = "err" /\ d.why = "trunc"
+
+\* outcome class of such a stream at an entry point (the expected output is pat repeated to n bytes;
+\* out is not materialised: the harness reports whether the result equals it).  "undecided" when the
+\* bytes are neither the literal stream nor a truncation of it: the closed form does not apply.
+LitClassify(entry, s, pat, n) ==
+  LET r == Route(entry, s) IN
+  IF ~r.run THEN r.direct
+  ELSE LET c == IF IsLitStream(r.F, s, r.off, pat, n) THEN Cls("ok", <<>>, "lit")
+                ELSE IF IsLitTrunc(r.F, s, r.off, pat, n) THEN Cls("err", <<>>, "trunc")
+                ELSE Cls("undecided", <<>>, "")
+       IN IF r.weak THEN Weaken(c) ELSE c
+\* res = [kind, same |-> result = pat repeated to n bytes]
+LitResAllowed(c, res) ==
+  CASE c.cls = "ok"    -> res.kind = "ok" /\ res.same
+    [] c.cls = "err"   -> res.kind = "err"
+    [] c.cls = "okerr" -> (res.kind = "ok" /\ res.same) \/ res.kind = "err"
+    [] c.cls = "open"  -> res.kind \in {"ok", "err"}
+    [] OTHER           -> FALSE
+
 \* res = [kind |-> "ok" | "err" | "panic" | "abort" | "timeout", out |-> bytes, alloc |-> BOOLEAN]
 \* (alloc: the worker died because a single allocation request above the harness allocator's
 \*  refusal threshold of 1 GiB was made.  Only for the 32-bit length header, whose handling the
